@@ -404,6 +404,25 @@ theorem par_batch_multiply_bfield_spec (threshold : Int) (numThreads : Nat) (fac
 example : parBatchMultiply TF.bfieldOps 0 bNtt 2 [[1, 1], [1, 1], [P - 1, 1]] = some [P - 1, P - 1, 1, 1] := by
   decide +kernel
 
+/-- **no panic**: `fast_multiply` over `BFieldElement` returns on all operands whose transform length
+    `next_power_of_two(deg a + deg b + 1)` is at most `2^31` (the NTT of C06 is defined on every such length) -/
+theorem fast_multiply_bfield_total (a b : List Nat)
+    (h : nextPowerOfTwo ((Model.Poly.degree TF.bfieldOps a + Model.Poly.degree TF.bfieldOps b).toNat + 1) ≤ 2^31) :
+    (fastMultiply TF.bfieldOps bNtt a b).isSome := by
+  obtain ⟨k, hk, hn⟩ := nextPowerOfTwo_le_pow _ 31 h
+  exact fastMultiply_isSome_of _ _ a b (by rw [hn]; exact bNtt_definedAt k hk)
+example : nextPowerOfTwo ((Model.Poly.degree TF.bfieldOps [1, 1] + Model.Poly.degree TF.bfieldOps [0, 5]).toNat + 1) ≤ 2^31 := by
+  decide +kernel
+
+/-- no panic for `fast_square` over `BFieldElement` up to transform length `2^31` -/
+theorem fast_square_bfield_total (p : List Nat)
+    (h : nextPowerOfTwo (2 * ((Model.Poly.normalize TF.bfieldOps p).length - 1) + 1) ≤ 2^31) :
+    (fastSquare TF.bfieldOps bNtt p).isSome := by
+  obtain ⟨k, hk, hn⟩ := nextPowerOfTwo_le_pow _ 31 h
+  exact fastSquare_isSome_of _ _ p (by rw [hn]; exact bNtt_definedAt k hk)
+example : nextPowerOfTwo (2 * ((Model.Poly.normalize TF.bfieldOps [1, 1, 0]).length - 1) + 1) ≤ 2^31 := by
+  decide +kernel
+
 end BField
 
 end TF.C07
